@@ -6,6 +6,7 @@ import (
 	goed "crypto/ed25519"
 	"fmt"
 	"math/big"
+	"reflect"
 	"strings"
 
 	"github.com/ldclabs/cose/iana"
@@ -383,6 +384,55 @@ func streamKeys(c *ctx) {
 					fail("key-public", "the compressed form of a generated ECDH key is not valid", describe(pk), err, "valid")
 				} else if _, err := ecdh.KeyToPublic(ck); err != nil {
 					fail("key-public", "the compressed form of a generated ECDH key does not convert", describe(ck), err, "a point")
+				}
+			}
+		}
+		// ---- an ECDH private key that carries public coordinates (RFC 9053 recommends it): its own, in each form, or
+		// wrongly those of another key. The derived public key denotes d.G, or the conversion is refused.
+		for _, crv := range []int{1, 2, 3, 4} {
+			dk, e1 := ecdh.GenerateKey(crv)
+			ok2, e2 := ecdh.GenerateKey(crv)
+			if e1 != nil || e2 != nil {
+				continue
+			}
+			pk, e1 := ecdh.ToPublicKey(dk)
+			pk2, e2 := ecdh.ToPublicKey(ok2)
+			if e1 != nil || e2 != nil {
+				continue
+			}
+			srcs := map[string]key.Key{"own": pk, "foreign": pk2}
+			if crv != 4 {
+				if ck, err := ecdh.ToCompressedKey(pk); err == nil {
+					srcs["own-compressed"] = ck
+				}
+				if ck, err := ecdh.ToCompressedKey(pk2); err == nil {
+					srcs["foreign-compressed"] = ck
+				}
+			}
+			for name, src := range srcs {
+				kp := cloneKey(dk)
+				for _, l := range []int{iana.EC2KeyParameterX, iana.EC2KeyParameterY} {
+					if v, ok := src[l]; ok {
+						kp[l] = v
+					}
+				}
+				var got key.Key
+				var err error
+				if p, pm := catch(func() { got, err = ecdh.ToPublicKey(kp) }); p {
+					fail("key-public", "ecdh.ToPublicKey panics on a private key carrying public coordinates ("+name+")", describe(kp), pm, "a key or an error")
+					continue
+				}
+				c.eval()
+				c.nontriv(fmt.Sprintf("ecdh-embedded|%d|%s|%v", crv, name, err == nil))
+				if err != nil {
+					if strings.HasPrefix(name, "own") {
+						fail("key-public", "ecdh.ToPublicKey refused a private key carrying its own public coordinates ("+name+")", describe(kp), err, "the public key")
+					}
+					continue
+				}
+				noPrivate(got, "ecdh.ToPublicKey", describe(kp))
+				if !reflect.DeepEqual(got[iana.EC2KeyParameterX], pk[iana.EC2KeyParameterX]) || !reflect.DeepEqual(got[iana.EC2KeyParameterY], pk[iana.EC2KeyParameterY]) {
+					fail("key-public", "the public key derived from an ECDH private key carrying public coordinates ("+name+") is not the public key of d", describe(kp), describe(got), describe(pk))
 				}
 			}
 		}
